@@ -27,7 +27,7 @@ ASSUMPTIONS = [
     "schedule files are written through numpy/text into a per-scenario scratch directory (real filesystem)",
 ]
 COMPONENTS = {"real": ["pyxel exposure/readout/detector/containers", "filesystem (scratch dir)"], "stub": []}
-BUDGET = {"quick": {"n": 640, "wall": 100, "determinism": 4}, "thorough": {"n": 40000, "wall": 1500, "determinism": 12}}
+BUDGET = {"quick": {"n": 640, "wall": 100, "determinism": 4}, "thorough": {"n": 80000, "wall": 1500, "determinism": 12}}
 REQUIRED_REACH = ["charge_array_handed_over", "clusters_written", "op:run", "op:pollute", "op:run_invalid", "nondestructive_multistep", "run_after_pollute", "times:file", "times:expr", "times:scalar", "invalid:setter"]
 
 INVALID = ["non_increasing", "duplicate", "first_zero", "start_eq_first", "start_gt_first", "empty", "2d", "decreasing"]
